@@ -5,6 +5,7 @@
 import Driver.Codec
 import ProphyModel.Spec
 import ProphyModel.Py
+import ProphyModel.PLayout
 open Lean Prophy Prophy.Driver
 
 structure DState where
@@ -43,10 +44,28 @@ def handle (st : DState) (j : Json) : Except String (DState × Json) := do
       | .pad n => Json.arr #[Json.str "p", Json.num n]
       | .raw b => Json.arr #[Json.str "r", Json.num b.length])
     pure (st, Json.mkObj [("chunks", Json.arr cs.toArray), ("gal", Spec.galTy ty v)])
+  | "spec_member_lens" =>
+    let ty ← getTy st j
+    let v ← valOfJson (← j.getObjVal? "v")
+    match ty, v with
+    | .struct _ ms, .struct vs =>
+      pure (st, Json.mkObj [("lens", Json.arr ((Spec.memberLens ms vs ms vs).map (fun (n : Nat) => (n : Json))).toArray),
+                            ("total", (Spec.enc ty v .little).length)])
+    | _, _ => pure (st, Json.mkObj [("lens", Json.null), ("total", (Spec.enc ty v .little).length)])
   | "spec_layout" =>
     let ty ← getTy st j
     pure (st, Json.mkObj [("size", Spec.sizeTy ty), ("align", Spec.alignTy ty),
       ("dyn", Spec.dynTy ty), ("unl", Spec.unlTy ty)])
+  | "prophyc_layout" =>
+    let ty ← getTy st j
+    let n := PL.nodeTy ty
+    let members := match ty with
+      | .struct _ ms => Json.arr ((PL.structMembers ms).map (fun (s, a, p) =>
+          Json.mkObj [("size", s), ("align", a), ("padding", Json.num (JsonNumber.fromInt p))])).toArray
+      | .union _ arms => Json.arr ((PL.armsOf arms).map (fun n =>
+          Json.mkObj [("size", n.size), ("align", n.align)])).toArray
+      | _ => Json.null
+    pure (st, Json.mkObj [("size", n.size), ("align", n.align), ("kind", n.kind), ("members", members)])
   | "py_statics" =>
     let ty ← getTy st j
     let fields := match ty with
